@@ -3,7 +3,7 @@ From V.lib Require Import Base.
 From V.c05 Require Import C05CodecModel.
 From V.c02 Require Import C02AggModel C02AggFragProofs C02AggScanProofs.
 From V.c12 Require Import C12Model C12Spec C12Sidx C12PartProofs C12BoundProofs C12ShapeProofs C12EncProofs C12SidxProofs.
-From V.c12 Require Import C12Bytes C12BytesProofs C12StreamProofs C12EptProofs.
+From V.c12 Require Import C12Bytes C12BytesProofs C12StreamProofs C12EptProofs C12C01Model C12C01Proofs.
 
 (* Every accepted top-level sequence, every flag combination: the children of the fragments of the
    segments, flattened in order, are exactly the emsg/moof/mdat boxes of the input in order (minus
@@ -102,6 +102,26 @@ Theorem C12_reencode_identical : forall (env : N -> binfo) (o : opts) (bs : list
                   reencode env o bs = Ok stream.
 Proof. exact reencode_stream. Qed.
 Print Assumptions C12_reencode_identical.
+
+(* The per-box hypothesis `stable` discharged by C01 (coq/c01, read-only).  The byte environment is COMPUTED from the
+   input bytes: c01_env gives, for the box at a tag, what C01's model of Box.Encode writes for the tree C01's model of
+   DecodeBoxSR returns for these bytes (c01_reenc).  c01_box x: x was written by the library (the Box.Encode output of any
+   exactly decoded tree - C01_fixpoint makes it a fixed point) or x decodes to a tree with no reported reason to differ
+   (C01_fixpoint_partial).  For every layout_ok stream of such boxes - ftyp, styp, moov, sidx, emsg, moof, mdat, mfra as far
+   as C01 models their content, unknown boxes as raw bytes - decode + segment-mode Encode writes the input stream.  Left as
+   hypotheses: doffs_ok (known finding C12-K1) and all_ok (size fields: C02). *)
+Theorem C12_reencode_identical_c01 :
+  forall (inb : N -> list N) (doff : N -> option N) (o : opts) (bs : list topbox) (f : file) (out : list topbox),
+  assemble o bs = Ok f -> layout_ok bs = true -> encode_segment_mode f = Ok out ->
+  (forall b, In b bs -> c01_box (inb (b_tag b))) ->
+  doffs_ok (c01_env inb doff) bs = true ->
+  all_ok (map (fun b => inb (b_tag b)) bs) ->
+  let stream := concat (map (fun b => inb (b_tag b)) bs) in
+  scan (length bs) stream = Some (map (fun b => inb (b_tag b)) bs) /\
+  out = bs /\
+  reencode (c01_env inb doff) o bs = Ok stream.
+Proof. exact reencode_identical_c01. Qed.
+Print Assumptions C12_reencode_identical_c01.
 
 (* Outside layout_ok File.Encode does NOT reproduce the file (each line: accepted, encoded without error,
    tags of the boxes written): a free box is dropped; a sidx behind a fragment moves in front of its
@@ -308,3 +328,14 @@ Example C12_example_reference_track :
                      [mkTraf 3 0 [[5; 5]] 0; mkTraf 7 0 [[10]; []; [20; 30]] 0] [] 0 0 0 0)) None;
                    mkFrag 0 [] (Some (mkBox KMoof 1 100 8 0 [] false [] false [mkTraf 9 0 [[1]] 0] [] 0 0 0 0)) None]) = 60.
 Proof. split; reflexivity. Qed.
+
+(* `styp moof mdat` exactly as the library writes them (NewStyp; CreateFragment(7, 1) + two samples, trun version 1 with a
+   composition offset, data offset 124 at byte 80 of the moof): every hypothesis of C12_reencode_identical_c01 holds, each
+   box is c01_plain by running C01's decoder on its bytes *)
+Example C12_example_reencode_c01 :
+  (forall b, In b x_boxes -> c01_box (x_inb (b_tag b))) /\
+  layout_ok x_boxes = true /\ doffs_ok (c01_env x_inb x_doff) x_boxes = true /\
+  all_ok (map (fun b => x_inb (b_tag b)) x_boxes) /\
+  exists f out, assemble (mkOpts false false) x_boxes = Ok f /\ encode_segment_mode f = Ok out /\
+                lenN (concat (map (fun b => x_inb (b_tag b)) x_boxes)) = 152.
+Proof. exact reencode_c01_example. Qed.
